@@ -110,6 +110,17 @@ func confirmAndMinimise(b builds, cfg tierCfg, viol *proto.Record) *proto.Record
 		cur.Note += " (free-running mode: replay is best-effort)"
 		return cur
 	}
+	if _, o, _ := countOps(cur); o > 20000 {
+		// a record this long (a soak pass) is not worth shrinking candidate by candidate:
+		// confirm it once and keep it
+		if _, ok := m.holds(cur); !ok {
+			cur.ReplayMode = "probabilistic"
+			cur.Note += " (long soak record; one confirmation replay did not reproduce)"
+		} else {
+			cur.Note += " (long soak record: confirmed by one replay, not minimised)"
+		}
+		return cur
+	}
 	got, ok := m.holds(cur)
 	if !ok && cur.Run.Index > 0 && cur.Build != "ref" {
 		// needs the process history: regenerate the earlier runs of that process (seeded)
@@ -130,7 +141,7 @@ func confirmAndMinimise(b builds, cfg tierCfg, viol *proto.Record) *proto.Record
 	probabilistic := false
 	if ok {
 		// determinism probe: the same file must give the same observation every time
-		for i := 0; i < 3 && !probabilistic; i++ {
+		for i := 0; i < 3 && !probabilistic && !m.exhausted(); i++ {
 			g2, ok2 := m.holds(cur)
 			if !ok2 || !sameObserved(got, g2) {
 				probabilistic = true
